@@ -374,13 +374,19 @@ pub fn run_one(cfg: &ForestCfg, run_index: u64, run_seed: u64, known: &KnownFile
             op
         } else {
             if prof.motif_pct > 0 && rng.pct(prof.motif_pct) {
-                if let Some(ops) = gen::gen_motif(&w.model, &mut rng, &clients[c].home) {
+                if let Some(ops) = gen::gen_motif(&w.model, &mut rng, &clients[c].home, prof.representable_ns_only) {
                     queued.extend(ops);
                 }
             }
             if prof.w_storewide > 0 && rng.pct(2) {
                 if let Some(ops) = gen::gen_redundant_decl_motif(&w.model, &mut rng, &clients[c].home) {
                     stats.inc("probe/redundant_declarations_motif");
+                    queued.extend(ops);
+                }
+            }
+            if rng.pct(1) {
+                if let Some(ops) = gen::gen_empty_text_motif(&w.model, &mut rng, &clients[c].home) {
+                    stats.inc("probe/empty_text_motif");
                     queued.extend(ops);
                 }
             }
